@@ -22,12 +22,81 @@ var coseAlgID = map[string]int64{"ES256": refcose.AlgES256, "ES384": refcose.Alg
 	"EdDSA": refcose.AlgEdDSA, "PS256": refcose.AlgPS256, "PS384": refcose.AlgPS384, "PS512": refcose.AlgPS512}
 
 func runC03(c *mon.Ctx) {
-	c.Rule("(a) valid claims-sets of both profiles and of a registered profile-2 extension (all optional subsets, hash sizes, 1-4 components, P1 flag or list, with/without explicit P1 profile; built directly / by setters / by decoding) x 7 algorithms x fresh keys (the ECDSA algorithms also with a curve other than the customary one: ES256 over P-384, ES384 over P-521, ES512 over P-256): SetClaims + ValidateAndSign (and Sign) must succeed; the token read by the independent COSE reader must be tag 18 / 4-array / [bstr, map, bstr, non-empty bstr], its payload byte-identical to ValidateAndEncodeClaimsToCBOR(claims), its protected header must carry the signer's algorithm under label 1; the independent verifier (Go stdlib crypto over a Sig_structure rebuilt by the harness) and Evidence.Verify on the signing Evidence must accept it; DecodeAndValidateEvidenceFromCOSE must succeed, return the same implementation type and identical Validate/getter results (also equal to the reference model's expectation), verify under the signer's key, and hold (hook H2) exactly the token's protected/payload/signature bytes; every token is also decoded by ONE REUSED Evidence that still holds the previous case's claims and must then expose exactly this token's claims; for every third case the attached claims are then edited in place (new nonce) and the SAME Evidence signs again: the second token's payload must be the encoding of the claims as they are now, verify, decode, and carry the new nonce; every fourth case the DECODED Evidence signs again with a key of another algorithm (re-issue): header algorithm, independent verification and payload are checked; every signing Evidence and token is kept and re-verified after six further cases; (b) invalid claims-sets signed with the non-validating Sign: the claims of the decoded Evidence must equal DecodeClaimsFromCBOR(payload read by the independent reader). distinct_nontrivial = distinct (algorithm, profile, route, optional-subset, nonce size, component count) signatures")
+	c.Rule("(a) valid claims-sets of both profiles and of a registered profile-2 extension (all optional subsets, hash sizes, 1-4 components, P1 flag or list, with/without explicit P1 profile; built directly / by setters / by decoding) x 7 algorithms x fresh keys (the ECDSA algorithms also with a curve other than the customary one: ES256 over P-384, ES384 over P-521, ES512 over P-256): SetClaims + ValidateAndSign (and Sign) must succeed; the token read by the independent COSE reader must be tag 18 / 4-array / [bstr, map, bstr, non-empty bstr], its payload byte-identical to ValidateAndEncodeClaimsToCBOR(claims), its protected header must carry the signer's algorithm under label 1; the independent verifier (Go stdlib crypto over a Sig_structure rebuilt by the harness) and Evidence.Verify on the signing Evidence must accept it; DecodeAndValidateEvidenceFromCOSE must succeed, return the same implementation type and identical Validate/getter results (also equal to the reference model's expectation), verify under the signer's key, and hold (hook H2) exactly the token's protected/payload/signature bytes; every token is also decoded by ONE REUSED Evidence that still holds the previous case's claims and must then expose exactly this token's claims; for every third case the attached claims are then edited in place (new nonce) and the SAME Evidence signs again: the second token's payload must be the encoding of the claims as they are now, verify, decode, and carry the new nonce; every fourth case the DECODED Evidence signs again with a key of another algorithm (re-issue): header algorithm, independent verification and payload are checked; every signing Evidence and token is kept and re-verified after six further cases; (c) the same round trip for registered extensions with unusual struct layouts (unexported embedded base over three levels with a non-last '-' field and a CBOR-only claim; mixin first); (b) invalid claims-sets signed with the non-validating Sign: the claims of the decoded Evidence must equal DecodeClaimsFromCBOR(payload read by the independent reader). distinct_nontrivial = distinct (algorithm, profile, route, optional-subset, nonce size, component count) signatures")
 	if err := extprof.Register(extprof.ExtP2Name); err != nil {
 		c.Violation("harness/register", err.Error(), nil)
 		return
 	}
 	g := model.NewGen(c.Seed*7717 + int64(c.Shard))
+	// (c) registered extensions with unusual struct layouts through the whole
+	// sign -> decode -> verify path
+	if err := extprof.Register(extprof.ExtNestedName, extprof.MixinName); err != nil {
+		c.Violation("harness/register", err.Error(), nil)
+		return
+	}
+	for i := 0; i < c.N(400, 8000); i++ {
+		a := g.Valid(2)
+		name := extprof.ExtNestedName
+		if i%2 == 1 {
+			name = extprof.MixinName
+		}
+		a.Canon, a.Profile = name, model.SP(name)
+		k := keys.New(keys.AlgNames[i%7], g.R.Intn(3))
+		if pn, pv, fr := mon.Guard(func() {
+			c.Eval()
+			x, err := obs.SetterBuild(a)
+			if err != nil {
+				c.Violation("C03/layout-ext/setters-refused", err.Error(), nil)
+				return
+			}
+			var ext *string
+			switch t := x.(type) {
+			case *extprof.ExtNestedClaims:
+				t.Cache = "bookkeeping"
+				t.Internal = model.SP(g.NonEmptyText())
+				ext = t.Internal
+			case *extprof.MixinClaims:
+				t.Mixin = model.SP(g.NonEmptyText())
+				ext = t.Mixin
+			}
+			ev := &psatoken.Evidence{}
+			if err := ev.SetClaims(x); err != nil {
+				c.Violation("C03/layout-ext/setclaims-failed/"+name, "SetClaims refused valid extension claims: "+err.Error(), nil)
+				return
+			}
+			tok, err := ev.ValidateAndSign(k.Signer)
+			if err != nil {
+				c.Violation("C03/layout-ext/sign-failed/"+name, "ValidateAndSign failed: "+err.Error(), nil)
+				return
+			}
+			d, err := psatoken.DecodeAndValidateEvidenceFromCOSE(tok)
+			if err != nil {
+				c.Violation("C03/layout-ext/own-token-rejected/"+name, "the library rejects the token it has just issued: "+err.Error(), map[string]any{"token_hex": mon.Hex(tok)})
+				return
+			}
+			if verr := d.Verify(k.Pub); verr != nil {
+				c.Violation("C03/layout-ext/decoded-verify-failed/"+name, verr.Error(), nil)
+				return
+			}
+			want, got := a.Expect(), obs.Observe(d.Claims)
+			var gext *string
+			switch t := d.Claims.(type) {
+			case *extprof.ExtNestedClaims:
+				gext = t.Internal
+			case *extprof.MixinClaims:
+				gext = t.Mixin
+			}
+			if df := model.ObsDiff(&want, &got); df != "" || fmt.Sprintf("%T", d.Claims) != fmt.Sprintf("%T", x) || strp(gext) != strp(ext) {
+				c.Violation("C03/layout-ext/claims-vs-model/"+name, fmt.Sprintf("decoded claims (%T) differ from the signed ones (%T): %s; extension claim %s vs %s", d.Claims, x, trunc(df, 300), strp(gext), strp(ext)), map[string]any{"token_hex": mon.Hex(tok)})
+				return
+			}
+			c.Count("layout-extension-tokens")
+		}); pn {
+			c.Violation("C03/panic/"+mon.PanicKey(fr), "panic on a layout extension", map[string]any{"panic": pv, "frame": fr})
+		}
+		c.Sig("layout-ext|" + name + "|" + k.Name)
+	}
+	c.Floor("layout-extension-tokens", 100)
 	var held03 []c03Held
 	var reuse03 *psatoken.Evidence
 	n := c.N(22400, 560000)
